@@ -7,6 +7,7 @@ import (
 	"go/token"
 	"go/types"
 	"os"
+	"reflect"
 	"strings"
 
 	"golang.org/x/tools/go/ssa"
@@ -1291,6 +1292,17 @@ func (ex *Exec) runBlock(fr *frame) {
 			fr.regs[ci.dst] = ex.binop(in.Op, in.X.Type(), ex.op(fr, &ci.ops[0]), ex.op(fr, &ci.ops[1]))
 		case *ssa.FieldAddr:
 			p := ex.ptr(ex.op(fr, &ci.ops[0]))
+			if nv, isNative := (*p).(nativeVal); isNative {
+				// read-only view of an exported scalar field of a natively held struct (e.g. url.URL.Host)
+				rv := reflect.ValueOf(nv.v)
+				if rv.Kind() == reflect.Ptr && rv.Elem().Kind() == reflect.Struct && in.Field < rv.Elem().NumField() && rv.Elem().Type().Field(in.Field).IsExported() {
+					cell := new(Val)
+					*cell = ex.fromGo(rv.Elem().Field(in.Field))
+					fr.regs[ci.dst] = cell
+					continue
+				}
+				panic(unsupported{"field of a native " + rv.Type().String()})
+			}
 			fp := &(*p).(structure)[in.Field]
 			fr.regs[ci.dst] = fp
 			if ex.lockDisc {
